@@ -19,7 +19,7 @@ def run(chk):
     chk.coverage['model_without_removal_of_previous_outputs_violates_Teeth'] = 'Teeth' in r2.violated
     if 'Teeth' not in r2.violated:
         chk.machinery_error('vacuity: without removing previous outputs the model should violate Teeth')
-    gr.run_sessions(chk, chk.seed + 12, 300 if thorough else 42, 3 if thorough else 2, CLAUSES, 'c12')
+    gr.run_sessions(chk, chk.seed + 12, 300 if thorough else 42, 4 if thorough else 3, CLAUSES, 'c12')
     chk.coverage['rule'] = ('the C11 command space; after generation one thing changes at a time (a character or a line of stdout / '
                             'stderr / a text file, a byte of a binary file, a file no longer produced, the exit status), the generated '
                             'test is run, the change is undone, the test is run again; the verdict of every generated test is bound to '
